@@ -39,7 +39,12 @@ Floor(r, n, s, cs) == IF cs = {} THEN s ELSE LET c == CHOOSE x \in cs : TRUE IN 
 WithinCap(r) == r.capOn => \A n \in Names(r) : StakeAfter(r, n) + 2 * Len(r.slashes) >= Floor(r, n, Rec(r.before, n).stake, Slashers(r, n))
 \* the design's rule, exactly
 Exact(r) == LET e == Fold(r, St0(r), 1) IN \A n \in Names(r) : StakeAfter(r, n) = e.stake[n] /\ CommAfter(r, n) = e.comm[n]
-Judge(r) == IF r.kind = "wedge" THEN "wedge" ELSE IF ~WithinCap(r) THEN "over-cap" ELSE IF ~Exact(r) THEN "deviation" ELSE "ok"
+\* more was taken than the block's fresh evidence orders: a (validator, height) pair slashed again, or a slash nobody ordered
+MoreThanOrdered(r) == LET e == Fold(r, St0(r), 1) IN \E n \in Names(r) : StakeAfter(r, n) + 2 * Len(r.slashes) < e.stake[n]
+\* a certificate-results transaction that reports only new pairs at a new chain height was not executed
+ValidRefused(r) == r.validIncluded < r.validSubmitted
+Judge(r) == IF r.kind = "wedge" THEN "wedge" ELSE IF ~WithinCap(r) THEN "over-cap" ELSE IF MoreThanOrdered(r) THEN "more-than-ordered"
+            ELSE IF ValidRefused(r) THEN "valid-refused" ELSE IF ~Exact(r) THEN "deviation" ELSE "ok"
 
 TraceInit == /\ l = 1 /\ ok = "ok" /\ TLCSet(1, 0)
              /\ cur = 0 /\ base = 0 /\ appl = 0 /\ inTx = FALSE /\ txsnap = 0 /\ blocktr = 0 /\ steps = 0 /\ blocks = 0 /\ last = 0
